@@ -291,6 +291,27 @@ func amount(r *vh.Rand) *big.Int {
 	}
 }
 
+// wordPair returns two amounts below a machine-word boundary 2^k whose sum
+// (or product with a small multiplier) crosses it.
+func wordPair(r *vh.Rand) (*big.Int, *big.Int) {
+	k := []uint{31, 32, 62, 63, 64, 127, 128}[r.Intn(7)]
+	w := new(big.Int).Lsh(big.NewInt(1), k)
+	x := new(big.Int).Sub(w, r.Big(r.Range(1, int(k)-1)))
+	x.Sub(x, big.NewInt(1))
+	if x.Sign() <= 0 {
+		x = new(big.Int).Rsh(w, 1)
+	}
+	y := new(big.Int).Sub(w, x)
+	y.Add(y, r.Big(r.Range(0, int(k)-2)))
+	if y.Cmp(w) >= 0 {
+		y.Sub(w, big.NewInt(1))
+	}
+	if y.Sign() <= 0 {
+		y = big.NewInt(1)
+	}
+	return x, y
+}
+
 func signedAmount(r *vh.Rand) *big.Int {
 	v := amount(r)
 	if r.Chance(1, 8) {
@@ -363,6 +384,10 @@ func gen(c *vh.Ctx) Case {
 	case 5:
 		return Case{Op: "print", A: []string{s(amount(r))}}
 	case 6:
+		if r.Chance(1, 3) {
+			x, y := wordPair(r)
+			return Case{Op: "add", A: []string{s(x), s(y)}}
+		}
 		return Case{Op: "add", A: []string{s(signedAmount(r)), s(signedAmount(r))}}
 	case 7:
 		x := signedAmount(r)
@@ -375,6 +400,16 @@ func gen(c *vh.Ctx) Case {
 		}
 		return Case{Op: "sub", A: []string{s(x), s(y)}}
 	case 8:
+		if r.Chance(1, 3) { // product crosses a word boundary although the amount is below it
+			k := []uint{31, 32, 62, 63, 64}[r.Intn(5)]
+			m := int64(r.Range(2, 1000000))
+			x := new(big.Int).Div(new(big.Int).Lsh(big.NewInt(1), k), big.NewInt(m))
+			x.Add(x, big.NewInt(int64(r.Range(-2, 2))))
+			if x.Sign() < 0 {
+				x.SetInt64(1)
+			}
+			return Case{Op: "mul", A: []string{s(x), fmt.Sprint(m)}}
+		}
 		return Case{Op: "mul", A: []string{s(signedAmount(r)), fmt.Sprint(r.Range(-2, 1000000))}}
 	case 9:
 		return Case{Op: "div", A: []string{s(signedAmount(r)), fmt.Sprint(r.Range(-2, 1000000))}}
@@ -429,6 +464,12 @@ func corpus() []Case {
 		{Op: "add", A: []string{"0", "0"}}, {Op: "add", A: []string{"0", "1"}}, {Op: "add", A: []string{"1", "0"}},
 		{Op: "sub", A: []string{"5", "5"}}, {Op: "sub", A: []string{"5", "6"}}, {Op: "sub", A: []string{"5", "0"}},
 		{Op: "mul", A: []string{"0", "1"}}, {Op: "mul", A: []string{"7", "0"}},
+		{Op: "mul", A: []string{"4611686018427387904", "2"}}, {Op: "mul", A: []string{"9223372036854775807", "2"}},
+		{Op: "mul", A: []string{"3000000000012345678", "1000000"}}, {Op: "mul", A: []string{"2147483648", "2"}},
+		{Op: "add", A: []string{"9223372036854775808", "9223372036854775808"}}, {Op: "add", A: []string{"18446744073709551615", "1"}},
+		{Op: "add", A: []string{"9223372036854775807", "1"}}, {Op: "add", A: []string{"4294967295", "1"}},
+		{Op: "sub", A: []string{"18446744073709551616", "1"}}, {Op: "sub", A: []string{"9223372036854775808", "1"}},
+		{Op: "div", A: []string{"18446744073709551616", "2"}}, {Op: "div", A: []string{"36893488147419103232", "3"}},
 		{Op: "div", A: []string{"0", "1"}}, {Op: "div", A: []string{"7", "0"}}, {Op: "div", A: []string{"7", "2"}},
 		{Op: "count", A: []string{"18446744073709551616", "1"}}, {Op: "count", A: []string{"18446744073709551615", "1"}},
 		{Op: "count", A: []string{"5", "5"}}, {Op: "count", A: []string{"4", "5"}}, {Op: "count", A: []string{"0", "0"}},
